@@ -23,6 +23,9 @@ package inode
 // cached inode differ from the transaction until the next WriteInode.
 // Z3 (C12): a file shrinks only to the size for which zeroTail has just cleared
 // the rest of its last kept block; growing is always allowed.
+// F3 (C05/C12): the freeing frontier is lowered only one block at a time (by
+// Shrink, which frees that block); every other store keeps or raises it.
+//@ writeguard inode.Inode.ShrinkSize by value >= oldvalue || value + 1 == oldvalue @C05 @C12 @C04
 //@ writeguard inode.Inode.Size by value >= oldvalue || tailzeroedto[this.Inum] == value @C12
 // I6 (C04/C05): a directory's ".." holds a link on its parent; the parent's
 // count is lowered before the directory is unlinked (checked at doDecLink).
@@ -248,7 +251,7 @@ package inode
 //@   ensures listsValid(op) && listsStable(op)
 
 //@ spec (*Inode).Shrink
-//@   props C05 C01 C04 C10 C11 C06 C12
+//@   props C05 C01 C02 C04 C10 C11 C06 C12
 //@   requires locked(ip) && inodeInv(ip) && txnOK(op)
 //@   allocates buf.Buf, marshal.Enc, marshal.Dec, cell:uint64, []uint8
 //@   modifies ip.ShrinkSize, ip.blks[*], dirtyinum, wroteinum, buf.Buf.dirty, []uint8@buf.Buf.Data, op.freeBnums, []uint64@alloctxn.AllocTxn.freeBnums, zeroed
@@ -272,6 +275,7 @@ package inode
 //@   ensures [I1-inode] inodeInv(ip) && ip.Size == old(ip.Size) && ip.ShrinkSize == old(ip.ShrinkSize) @C04
 //@   ensures listsValid(atxn) && listsStable(atxn) && othersClean(ip)
 //@   ghostexit tailzeroedto = store(tailzeroedto, ip.Inum, sz)
+//@   ensureslocal [Z3-published] buf.dirty @C12
 //@   ensureslocal [Z3-tail] len(buf.Data) == 4096 && (forall k uint64 :: byteoff <= k && k < 4096 ==> buf.Data[k] == 0) @C12
 //@   loop 0 invariant b <= 4096 && byteoff <= b && len(buf.Data) == 4096 && (forall k uint64 :: byteoff <= k && k < b ==> buf.Data[k] == 0)
 //@   loop 0 decreases 4096 - b
